@@ -14,7 +14,7 @@ def jobs(tier):
              defines=dict(NN=3, NE=2, NS=0, NM=0, TP_HI=0, SP_HI=1, MAXS=2, DEFAULT_OPTIONS_ONLY=1, H_NODE_REFS=1), timeout=900,
              require_tags={'end': 1, 'accept': 1, 'population-dropped': 1}),
         dict(name='n3e2-reduce-to-sites', harness=H, entry='main_c04',
-             defines=dict(NN=3, NE=2, NS=2, NM=1, TP_HI=0, SP_HI=0, MAXS=2, DEFAULT_OPTIONS_ONLY=1, REDUCE_PASS=1), timeout=900,
+             defines=dict(NN=3, NE=2, NS=2, NM=0, TP_HI=0, SP_HI=0, MAXS=2, DEFAULT_OPTIONS_ONLY=1, REDUCE_PASS=1), timeout=900,
              require_tags={'end': 1, 'accept': 1, 'reduced-edges': 1}),
     ]
     if tier == 'quick':
